@@ -19,6 +19,10 @@ CLAIMED = {
          "generated search over edit histories: after every call (successful, failing or panicking) the navigation views of every document and every detached subtree must agree (parent/child/sibling/first/last consistency, no node twice, bounded depth, removed node has no parent, one document element/doctype); worker aborts and hangs are verdicts",
          "trusted: node identity = (XmlNode::id, kind); operand shapes excluded by construction are counted in evidence.coverage.labels (excluded:*)",
          "DESIGN.md section 5, C12"),
+ "C16": ("stateful property-based testing (proptest): generated character-data call histories compared with a Vec<char> reference model",
+         "generated search: after every CharacterData/Text call the result class, returned string, data() and length() must equal a Vec<char> model implementing the DOM Level 1 rules; offsets/counts include 0..=11 and usize::MAX, contents include astral and combining characters",
+         "trusted: the Vec<char> model in props/c16.rs; parentless split_text may fail or split (DOM Level 1 does not say)",
+         "DESIGN.md section 5, C16"),
 }
 ALL = ["C%02d" % i for i in range(1, 20)]
 PENDING_REASON = "check not built yet in this snapshot of /verif (work in progress; DESIGN.md section 5 describes the planned generated-search check)"
